@@ -14,13 +14,9 @@ constraints `K.WF`, all lengths, all `rest`):
                      inner length prefixes are covered by the round trips: a wrong prefix cannot
                      reproduce the fields).
 
-Where `/repo` violates the statement the theorem is stated for what holds and the violation is a
-theorem of its own:
-* `EED.roundtrip_fails` / `EED.roundtrip_counterexample` / `EED.length_fields_short`: the writer
-  declares 5 bytes too few, the reader rejects every EED the library writes.
-* `Error.spec_roundtrip_counterexample`, `Error.roundtrip_counterexample`: the reader skips State and
-  Class; it only reads the layout without those two bytes (`Error.reads_own_layout`).
-* `ReturnStatus.enc_no_token`: the writer emits no token.
+The four violations found in the first round (EED declared length, ERROR reader without State/Class,
+RETURNSTATUS writer without token, ENVCHANGE uint16 counter) are repaired in `/repo`; their theorems
+are now the full statements. Behaviour that is still as it was and is stated as it is:
 * `Done.enc_token_of_aliases`: DONEPROC / DONEINPROC are written with the token of DONE.
 * `LoginAck.length_fields_counterexample`: the writer emits the stored Length / NameLength.
 * `Logout.dec_rejects_options`: the reader rejects what the writer writes for options ≠ 0.
@@ -126,41 +122,19 @@ theorem EED.spec_roundtrip (k : EED) (h : EED.WF k) (rest : Bytes) :
     EED.dec (EED.encSpecBody k ++ rest) = .ok (EED.norm k) (EED.encSpecBody k).length :=
   EED.parses_after_length k h _ (EED.payload_length k).symm rest
 
-/-- FALSE in `/repo`: `EED.dec (EED.encBody k ++ rest) = ok (norm k) _`. The writer declares
-`11 + …`, the reader counts `16 + …`: EVERY package the writer produces is rejected by the reader,
-after all its bytes have been consumed. -/
-theorem EED.roundtrip_fails (k : EED) (h : EED.WF k) (rest : Bytes) :
-    EED.dec (EED.encBody k ++ rest) = .err (EED.encBody k).length := by
-  obtain ⟨h1, h2, h3, h4, h5, h6, h7, h8, h9, h10, h11⟩ := h
-  have key : Fails EED.dec (EED.encBody k) := by
-    unfold EED.dec EED.encBody EED.payload EED.declared
-    refine fails_bind (parses_u16 _ (by omega)) ?_
-    refine fails_bind (parses_u32 _ h1) ?_
-    refine fails_bind (parses_u8 _ h2) ?_
-    refine fails_bind (parses_u8 _ h3) ?_
-    refine fails_bind (parses_u8 _ h4) ?_
-    refine fails_bind (parses_take _) ?_
-    refine fails_bind (parses_u8 _ h5) ?_
-    refine fails_bind (parses_u16 _ h6) ?_
-    refine fails_bind (parses_u16 _ h7) ?_
-    refine fails_bind (parses_take _) ?_
-    refine fails_bind (parses_u8 _ h8) ?_
-    refine fails_bind (parses_take _) ?_
-    refine fails_bind (parses_u8 _ h9) ?_
-    refine fails_bind (parses_take _) ?_
-    refine fails_bind_last (parses_u16 _ h10) ?_
-    rw [if_pos (by omega)]
-  exact key rest
+/-- the writer produces the TDS layout -/
+theorem EED.enc_eq_spec (k : EED) : EED.enc k = .ok (EED.encSpec k) := by
+  unfold EED.enc EED.encSpec EED.encBody EED.encSpecBody EED.declared
+  rw [EED.payload_length]
 
-/-- concrete witness (`pkg enc eed 1 2 3 5a5a 1 0 6869 73 70 7`, then `pkg dec e5 - …` = `err`) -/
-theorem EED.roundtrip_counterexample :
-    EED.dec (EED.encBody ⟨1, 2, 3, [0x5a, 0x5a], 1, 0, [0x68, 0x69], [0x73], [0x70], 7⟩) = .err 24 := by
-  decide
+/-- what `WriteTo` writes is read back (up to the stripped newline), consuming exactly what was written -/
+theorem EED.roundtrip (k : EED) (h : EED.WF k) (rest : Bytes) :
+    EED.dec (EED.encBody k ++ rest) = .ok (EED.norm k) (EED.encBody k).length :=
+  EED.parses_after_length k h _ rfl rest
 
-/-- FALSE in `/repo`: the length field equals the number of bytes that follow. The writer declares
-5 bytes too few (the four length prefixes 1+2+1+1 are not counted). -/
-theorem EED.length_fields_short (k : EED) (h : EED.WF k) :
-    leDecode ((EED.encBody k).take 2) + 5 = (EED.encBody k).length - 2 := by
+/-- the length field written equals the number of bytes that follow it -/
+theorem EED.length_fields (k : EED) (h : EED.WF k) :
+    leDecode ((EED.encBody k).take 2) = (EED.encBody k).length - 2 := by
   obtain ⟨_, _, _, _, _, _, _, _, _, _, h11⟩ := h
   have h2 : (EED.encBody k).take 2 = leEncode 2 (EED.declared k) := by
     unfold EED.encBody
@@ -214,22 +188,17 @@ theorem Error.length_fields (k : Error) (h : Error.WF k) :
   simp only [Error.encBody, List.length_append, leEncode_length, Error.payload_length]
   omega
 
-/-- what `ErrorPackage.ReadFrom` actually reads: the layout WITHOUT the State and Class bytes,
-declaring `10 + …` -/
-def Error.readerBody (k : Error) : Bytes :=
-  leEncode 2 (10 + k.msg.length + k.server.length + k.proc.length) ++ (leEncodeInt 4 k.number ++
-  (leEncode 2 k.msg.length ++ (k.msg ++ (byte k.server.length ++ (k.server ++
-  (byte k.proc.length ++ (k.proc ++ leEncode 2 k.line)))))))
-
-theorem Error.reads_own_layout (k : Error) (h : Error.WF k) (rest : Bytes) :
-    Error.dec (Error.readerBody k ++ rest) =
-      .ok { k with state := 0, cls := 0 } (Error.readerBody k).length := by
+/-- what `WriteTo` writes is read back, State and Class included -/
+theorem Error.roundtrip (k : Error) (h : Error.WF k) (rest : Bytes) :
+    Error.dec (Error.encBody k ++ rest) = .ok k (Error.encBody k).length := by
   obtain ⟨h1, h2, h3, h4, h5, h6, h7, h8, h9⟩ := h
   revert rest
-  show Parses Error.dec (Error.readerBody k) _
-  unfold Error.dec Error.readerBody
+  show Parses Error.dec (Error.encBody k) k
+  unfold Error.dec Error.encBody Error.payload
   refine parses_bind (parses_u16 _ (by omega)) ?_
   refine parses_bind (parses_int32 _ h1 h2) ?_
+  refine parses_bind (parses_u8 _ h3) ?_
+  refine parses_bind (parses_u8 _ h4) ?_
   refine parses_bind (parses_u16 _ h5) ?_
   refine parses_bind (parses_take _) ?_
   refine parses_bind (parses_u8 _ h6) ?_
@@ -239,16 +208,12 @@ theorem Error.reads_own_layout (k : Error) (h : Error.WF k) (rest : Bytes) :
   refine parses_bind_pure (parses_u16 _ h8) ?_
   rw [if_neg (by omega)]
 
-/-- FALSE in `/repo`: `Error.dec (Error.encSpecBody k ++ rest) = ok k _`. The reader takes State and
-Class for the message length. Witness: error 7, state 3, class 4, "m", "s", "p", line 9
-(`pkg dec aa - 0f0007000000030401006d017301700900` = `notEnough`: it waits for a 1027 byte message). -/
-theorem Error.spec_roundtrip_counterexample :
-    Error.dec (Error.encSpecBody ⟨7, 3, 4, [0x6d], [0x73], [0x70], 9⟩) = .notEnough := by decide
-
-/-- with State = Class = 0 the misparse ends in the length check
-(`pkg dec aa - 0c00010000000000000000000000` = `err`) -/
-theorem Error.roundtrip_counterexample :
-    Error.dec (Error.encBody ⟨1, 0, 0, [], [], [], 0⟩) = .err 12 := by decide
+/-- the reader against the TDS layout -/
+theorem Error.spec_roundtrip (k : Error) (h : Error.WF k) (rest : Bytes) :
+    Error.dec (Error.encSpecBody k ++ rest) = .ok k (Error.encSpecBody k).length := by
+  have : Error.encSpecBody k = Error.encBody k := by
+    unfold Error.encBody Error.encSpecBody; rw [Error.payload_length]
+  rw [this]; exact Error.roundtrip k h rest
 
 example : Error.WF ⟨-7, 3, 4, [0x6d], [0x73], [0x70], 9⟩ := by unfold Error.WF; decide
 
@@ -384,7 +349,7 @@ theorem Member.parses (m : Member) (h : Member.WF m) :
   exact parses_bind_pure (parses_optTake _) rfl
 
 /-- the reader's loop over the members written, from any state with `n` bytes counted so far -/
-theorem envLoop_parses (L : Nat) (hL : L < 65536) (ms : List Member) (hwf : ∀ m ∈ ms, Member.WF m)
+theorem envLoop_parses (L : Nat) (ms : List Member) (hwf : ∀ m ∈ ms, Member.WF m)
     (n : Nat) (acc : List Member) (hn : n + membersLen ms = L) (f : Nat) (hf : ms.length ≤ f) :
     Parses (loop (fun st : EnvState => decide (st.1 < L)) envStep f (n, acc)) (membersEnc ms)
       (L, acc ++ ms) := by
@@ -407,23 +372,12 @@ theorem envLoop_parses (L : Nat) (hL : L < 65536) (ms : List Member) (hwf : ∀ 
       rw [loop_succ_pos (cond := fun st : EnvState => decide (st.1 < L)) (st := (n, acc)) f
         (by simp; omega)]
       simp only [membersEnc]
-      refine parses_bind (a := ((n + (3 + m.new.length + m.old.length)) % 65536, acc ++ [m])) ?_ ?_
+      refine parses_bind (a := (n + (3 + m.new.length + m.old.length), acc ++ [m])) ?_ ?_
       · unfold envStep
         exact parses_bind_pure (Member.parses m (hwf m (by simp))) rfl
-      · have hmod : (n + (3 + m.new.length + m.old.length)) % 65536 = n + (3 + m.new.length + m.old.length) :=
-          Nat.mod_eq_of_lt (by omega)
-        rw [hmod]
-        have := ih (fun x hx => hwf x (by simp [hx])) (n + (3 + m.new.length + m.old.length)) (acc ++ [m])
+      · have := ih (fun x hx => hwf x (by simp [hx])) (n + (3 + m.new.length + m.old.length)) (acc ++ [m])
           (by omega) f (by simpa using hf)
         simpa using this
-
-theorem EnvChange.parses_decFuel (k : EnvChange) (h : EnvChange.WF k) (f : Nat) (hf : k.members.length ≤ f) :
-    Parses (EnvChange.decFuel f) (EnvChange.encBody k) k := by
-  obtain ⟨h1, h2⟩ := h
-  unfold EnvChange.decFuel EnvChange.encBody
-  refine parses_bind (parses_u16 _ h2) ?_
-  refine parses_bind_pure (envLoop_parses _ h2 k.members h1 0 [] (by simp) f hf) ?_
-  simp
 
 theorem membersLen_ge (ms : List Member) : ms.length ≤ membersLen ms := by
   induction ms with
@@ -432,11 +386,14 @@ theorem membersLen_ge (ms : List Member) : ms.length ≤ membersLen ms := by
 
 theorem EnvChange.roundtrip (k : EnvChange) (h : EnvChange.WF k) (rest : Bytes) :
     EnvChange.dec (EnvChange.encBody k ++ rest) = .ok k (EnvChange.encBody k).length := by
-  show EnvChange.decFuel (EnvChange.encBody k ++ rest).length (EnvChange.encBody k ++ rest) = _
-  refine EnvChange.parses_decFuel k h _ ?_ rest
-  have := membersLen_ge k.members
-  simp only [EnvChange.encBody, List.length_append, leEncode_length, membersEnc_length]
-  omega
+  obtain ⟨h1, h2⟩ := h
+  revert rest
+  show Parses EnvChange.dec (EnvChange.encBody k) k
+  unfold EnvChange.dec EnvChange.encBody
+  refine parses_bind (parses_u16 _ h2) ?_
+  refine parses_bind_pure
+    (envLoop_parses _ k.members h1 0 [] (by simp) _ (membersLen_ge k.members)) ?_
+  simp
 
 /-- the writer produces the TDS layout (server-only kind: the reader reads the layout) -/
 theorem EnvChange.enc_eq_spec (k : EnvChange) : EnvChange.enc k = .ok (EnvChange.encSpec k) := by
@@ -657,6 +614,7 @@ theorem Language.roundtrip (k : Language) (h : Language.WF k) (rest : Bytes) :
   show Parses Language.dec (Language.encBody k) k
   unfold Language.dec Language.encBody
   refine parses_bind (parses_u32 _ h2) ?_
+  rw [if_neg (by omega)]
   refine parses_bind (parses_u8 _ h1) ?_
   refine parses_bind_pure (e := k.cmd) (a := k.cmd) ?_ rfl
   unfold P.takeInt
@@ -692,7 +650,7 @@ example : Language.WF ⟨0, [115, 101, 108]⟩ := by unfold Language.WF; decide
 
 def ReturnStatus.WF (k : ReturnStatus) : Prop := -2147483648 ≤ k.value ∧ k.value < 2147483648
 
-/-- the four value bytes the writer produces are read back -/
+/-- the four value bytes the writer produces after its token are read back -/
 theorem ReturnStatus.roundtrip (k : ReturnStatus) (h : ReturnStatus.WF k) (rest : Bytes) :
     ReturnStatus.dec (ReturnStatus.encBody k ++ rest) = .ok k (ReturnStatus.encBody k).length := by
   revert rest
@@ -700,22 +658,14 @@ theorem ReturnStatus.roundtrip (k : ReturnStatus) (h : ReturnStatus.WF k) (rest 
   unfold ReturnStatus.dec
   exact parses_bind_pure (parses_int32 _ h.1 h.2) rfl
 
-/-- the reader against the TDS layout: token 0x79, then the value -/
-theorem ReturnStatus.spec_roundtrip (k : ReturnStatus) (h : ReturnStatus.WF k) (rest : Bytes) :
-    ∃ body, ReturnStatus.encSpec k = 0x79 :: body ∧
+/-- the writer produces the TDS layout: token 0x79, then the value -/
+theorem ReturnStatus.enc_eq_spec (k : ReturnStatus) : ReturnStatus.enc k = .ok (ReturnStatus.encSpec k) := rfl
+
+/-- `WriteTo`, then (the channel consumes the token) `ReadFrom`, reproduces the package -/
+theorem ReturnStatus.enc_roundtrip (k : ReturnStatus) (h : ReturnStatus.WF k) (rest : Bytes) :
+    ∃ body, ReturnStatus.enc k = .ok (0x79 :: body) ∧
       ReturnStatus.dec (body ++ rest) = .ok k body.length :=
   ⟨ReturnStatus.encBody k, rfl, ReturnStatus.roundtrip k h rest⟩
-
-/-- FALSE in `/repo`: `ReturnStatus.enc k = ok (ReturnStatus.encSpec k)`. `WriteTo` writes the four
-value bytes only, no token (`pkg enc returnstatus -3` = `ok fdffffff`). -/
-theorem ReturnStatus.enc_no_token (k : ReturnStatus) :
-    ReturnStatus.enc k = .ok ((ReturnStatus.encSpec k).drop 1) ∧
-    ReturnStatus.enc k ≠ .ok (ReturnStatus.encSpec k) := by
-  refine ⟨rfl, ?_⟩
-  intro h
-  injection h with h
-  have := congrArg List.length h
-  simp [ReturnStatus.encBody, ReturnStatus.encSpec, leEncodeInt_length] at this
 
 example : ReturnStatus.WF ⟨-3⟩ := by unfold ReturnStatus.WF; decide
 
